@@ -155,6 +155,23 @@ def run_unit(name, tier, seed):
                           blame_text='', primary_text='', span_labels=[], label=l['label'], tags=l['tags'], origin='syntactic',
                           obligation='%s::%s::%s' % (name, l['function'].split('fn ')[-1], l['label']),
                           diagnostic='syntactic obligation checked by the extractor (vx), not by Verus: ' + l['message']))
+    # where in the repository does the failing line come from (best effort: exact text of the line, unique match)
+    for f_ in fails:
+        for key in ('primary_text', 'blame_text'):
+            t_ = (f_.get(key) or '').strip()
+            if len(t_) < 12:
+                continue
+            for path_ in g['ctx'].file_sha:
+                try:
+                    lines_ = open(os.path.join(g['ctx'].repo, 'src', path_)).read().split('\n')
+                except OSError:
+                    continue
+                hits = [i + 1 for i, l_ in enumerate(lines_) if l_.strip() == t_]
+                if len(hits) == 1:
+                    f_['repo_location'] = 'src/%s:%d' % (path_, hits[0])
+                    break
+            if 'repo_location' in f_:
+                break
     # function breakdown
     funcs = []
     try:
